@@ -110,6 +110,10 @@ func c16Run(c *rt.Ctx, srcKind, dstKind, fnName string, size int, mode fs.FileMo
 	content := c16Content(size)
 	srcPath := srcBase.Join(srcDir, "src.bin")
 	dstPath := dstBase.Join(dstDir, "dst.bin")
+	if caseNo%4 == 1 && srcDir == dstDir {
+		// mirroring: the same path string on two distinct file systems of the same kind
+		dstPath = srcPath
+	}
 	if err := srcBase.WriteFile(srcPath, content, 0o600); err != nil {
 		c.Rep.Inconclusive = append(c.Rep.Inconclusive, "cannot set up source: "+err.Error())
 		return nil
